@@ -19,8 +19,7 @@ TABLE = {
     "C05": dict(crate="c05", flags=" -Zmiri-tree-borrows -Zmiri-ignore-leaks", quick=(16, 4, 4), thorough=(16, 48, 4)),
     "C16": dict(crate="c16", flags="", quick=(4, 8, 2), thorough=(4, 64, 2)),
     "C20": dict(crate="c20", flags="", quick=(4, 8, 1), thorough=(4, 64, 1)),
-    # tracing-subscriber's registry (sharded-slab) keeps per-thread pages alive past thread exit
-    "C17": dict(crate="c17", flags=" -Zmiri-ignore-leaks", quick=(6, 8, 3), thorough=(18, 32, 3)),
+    "C17": dict(crate="c17", flags="", quick=(6, 8, 3), thorough=(18, 32, 3)),
 }
 CRATE = None
 BASEFLAGS = "-Zmiri-preemption-rate=0.1"
